@@ -1,4 +1,3 @@
 INIT Init
 NEXT Next
-INVARIANT NVerdicts
 POSTCONDITION Done
